@@ -261,6 +261,29 @@ def _(i0, i1, s0, s1, b0, k0, k1, k2):
     return Derived(x=i0, y=[None, s0][k0])
 
 
+@spec("derivedb", DerivedB, K=(2, 1, 1), uses="i0 i1 k0")
+def _(i0, i1, s0, s1, b0, k0, k1, k2):
+    return DerivedB(x=i0, w=[None, i1][k0])
+
+
+@spec("dup", Dup, K=(3, 2, 1), valid=lambda i0, i1, s0, s1, b0, k0, k1, k2: _xml(s0), uses="i0 s0 k0 k1",
+      note="second field of the same element name holds a string that may itself look like an int")
+def _(i0, i1, s0, s1, b0, k0, k1, k2):
+    return Dup(code=i0, label=[None, "l"][k1], alt_code=[None, s0, "0042"][k0])
+
+
+@spec("unionmodels", UnionModels, K=(4, 3, 1), valid=lambda i0, i1, s0, s1, b0, k0, k1, k2: _xml(s0) and not _looks_int(s0), uses="i0 s0 k0 k1",
+      note="domain: a Textual value must not itself be an int literal (it would legitimately bind to Numeric)")
+def _(i0, i1, s0, s1, b0, k0, k1, k2):
+    item = [None, Numeric(value=i0), Textual(value=s0), Textual(value="n/a")][k0]
+    return UnionModels(item=item, items=[Textual(value="x"), Numeric(value=i0)][:k1])
+
+
+@spec("nsattrparent", NsAttrParent, K=(3, 3, 1), valid=lambda i0, i1, s0, s1, b0, k0, k1, k2: _xml(s0), uses="i0 s0 k0 k1")
+def _(i0, i1, s0, s1, b0, k0, k1, k2):
+    return NsAttrParent(child=[None, NsAttr(a=s0, x=None), NsAttr(a="v", x=i0)][k0], kids=[NsAttr(a=s0), NsAttr(a=None, x=1)][:k1])
+
+
 # ---- wildcards
 @spec("wild_text", Wild, K=(4, 1, 1), valid=lambda i0, i1, s0, s1, b0, k0, k1, k2: _notblank(s0), uses="s0 k0",
       note="domain: generic text / tail not white-space-only")
